@@ -102,5 +102,11 @@ def main():
     sab = sabotaged_model()
     print('sabotaged reference model        -> %s' % ('ContractsHold violated' if sab else 'NOT DETECTED'))
     ok &= sab
+    # the transcription with the ORIGINAL (defective) restart order of remove_formatting must violate the refinement
+    old_d11 = ('Pt(restart \\o p.add, d.rem \\o extraRem)', 'Pt(p.add \\o d.removed, d.rem)')
+    r = models.run_cp('cp_quick', sabotage=old_d11)
+    hit = (not r['ok']) and 'Refines' in r['detail']
+    print('transcription with the old restart order -> %s' % ('Refines violated' if hit else 'NOT DETECTED: ' + r['detail'][:200]))
+    ok &= hit
     print('selftest ' + ('passed' if ok else 'FAILED'))
     return 0 if ok else 1
